@@ -575,7 +575,6 @@ func c11HarnessV(malformed, lastBoxEOF bool) mc.Harness {
 	}
 }
 
-
 func init() {
 	register(&mc.Check{Property: "C11", Setup: defaultLogger,
 		Spaces: func(tier string) []mc.Space {
